@@ -92,6 +92,9 @@ type scenario struct {
 	Block     int    // block size requested (0 = default)
 	SID       string
 	OpenReply string // library opens: result | error:<type>/<cond> | none
+	// library opens, peer accepts: the peer's first data packet (this many
+	// bytes, 0 = none) is sent in the same write as its acknowledgement
+	Early int
 	Listen    bool   // peer opens: is there a listener
 	Steps     []step
 	Final     string // C | PC : how the stream is closed if the steps did not
@@ -109,7 +112,7 @@ func (sc *scenario) String() string {
 	case "libdefault":
 		fmt.Fprintf(&sb, "lib-Open(reply=%s)", sc.OpenReply)
 	default:
-		fmt.Fprintf(&sb, "lib-OpenIQ(%s,block=%d,sid=%q,reply=%s)", sc.Carrier, sc.Block, sc.SID, sc.OpenReply)
+		fmt.Fprintf(&sb, "lib-OpenIQ(%s,block=%d,sid=%q,reply=%s,first-packet-with-the-acknowledgement=%d)", sc.Carrier, sc.Block, sc.SID, sc.OpenReply, sc.Early)
 	}
 	for _, s := range sc.Steps {
 		sb.WriteString(" " + s.String())
@@ -199,6 +202,9 @@ func genScenario(t *rapid.T) *scenario {
 			"error:cancel/service-unavailable", "error:auth/forbidden", "error-bare", "error-echo", "none"}).Draw(t, "openreply")
 	case "peer":
 		sc.Listen = rapid.IntRange(0, 9).Draw(t, "listen") != 0
+	}
+	if sc.Opener == "lib" && sc.OpenReply == "result" && rapid.IntRange(0, 3).Draw(t, "early") == 0 {
+		sc.Early = rapid.SampledFrom([]int{1, 3, 5}).Draw(t, "earlyn")
 	}
 	sc.Final = rapid.SampledFrom([]string{"C", "PC"}).Draw(t, "final")
 	sc.DrainK = rapid.SampledFrom([]int{1, 2, 3, 7, 64, 4096, 1 << 20}).Draw(t, "draink")
@@ -772,6 +778,19 @@ func (r *runner) open() {
 		err error
 	}
 	r.p.setPolicy(sc.OpenReply, "", "")
+	var earlyData []byte
+	earlyID, earlySy := "", ""
+	if sc.Early > 0 && sc.OpenReply == "result" {
+		earlyData = bytes.Repeat([]byte("e"), sc.Early)
+		earlyID, earlySy = r.id("pe"), r.id("sy")
+		r.p.setEarly(func(sid string) string {
+			if sc.Carrier == "iq" {
+				return dataIQ(earlyID, sid, 0, b64(earlyData))
+			}
+			return dataMsg(earlyID, sid, 0, b64(earlyData)) + syncIQ(earlySy)
+		})
+		defer r.p.setEarly(nil)
+	}
 	from := r.p.count()
 	var och chan opened
 	if sc.Opener == "libdefault" {
@@ -819,6 +838,39 @@ func (r *runner) open() {
 	}
 	r.conn, r.sid = o.c, oe.sid
 	r.class("open:lib")
+	if earlyData != nil {
+		// the packet that came with the acknowledgement belongs to the stream
+		r.class("open:lib-peer-speaks-first")
+		accepted, cond := true, ""
+		if sc.Carrier == "iq" {
+			e, _ := r.p.waitEvent(from, func(e *event) bool { return (e.kind == "result" || e.kind == "error") && e.id == earlyID }, opTimeout)
+			if e == nil {
+				r.checkPanics()
+				r.sessionDead("the data packet sent with the acknowledgement of the open request")
+				r.inconclusive("timeout waiting for the answer to the data packet sent with the acknowledgement of the open request")
+			}
+			accepted, cond = e.kind == "result", e.cond
+		} else {
+			e, idx := r.p.waitEvent(from, func(e *event) bool { return e.kind == "error" && e.id == earlySy }, opTimeout)
+			if e == nil {
+				r.checkPanics()
+				r.sessionDead("the data message sent with the acknowledgement of the open request")
+				r.inconclusive("timeout waiting for the serve loop to get past the data message sent with the acknowledgement of the open request")
+			}
+			evs := r.p.events()
+			for i := from; i < idx; i++ {
+				if evs[i].kind == "msgerror" {
+					accepted, cond = false, evs[i].cond
+				}
+			}
+		}
+		if !accepted {
+			r.failf("the peer accepted the open request and sent its first data packet (seq 0, %d bytes) in the same write as the acknowledgement; Open succeeded, but the packet was refused with %s", len(earlyData), cond)
+		}
+		r.q = append(r.q, earlyData...)
+		r.expSeq = 1
+		r.nGood++
+	}
 }
 
 func (r *runner) write(b blob) {
